@@ -1,6 +1,7 @@
 package main
 
 import (
+	"sort"
 	"fmt"
 	"go/token"
 	"go/types"
@@ -29,7 +30,7 @@ func protoRunMode(p *Prog, fn *ssa.Function, structPoints bool) (*sched, []proto
 // protoRunFull: contracts != nil selects the glue mode; pre are initial facts
 func protoRunFull(p *Prog, fn *ssa.Function, structPoints bool, contracts map[string]*xContract, pre []pFact, alias ...map[int]int) (*sched, []protoOutcome) {
 	e := newSched(p, map[string]*tabSem{})
-	d := &protoDom{e: e, globals: map[string]func(st *sState) sVal{}, structPoints: structPoints, glue: contracts != nil, contracts: contracts, gOK: map[string]int{}, gBad: map[string][]string{}}
+	d := &protoDom{e: e, globals: map[string]func(st *sState) sVal{}, structPoints: structPoints, glue: contracts != nil, contracts: contracts, gOK: map[string]int{}, gBad: map[string][]string{}, stream: protoStreamMode}
 	e.proto = d
 	st := newSState()
 	st.gcells = map[string]int{}
@@ -45,6 +46,10 @@ func protoRunFull(p *Prog, fn *ssa.Function, structPoints bool, contracts map[st
 		// the initialiser of sm4 probes CPU features and fills tables; the only variable the glue uses is the error value
 		skipInit = true
 		d.globals["errOpen"] = cellOf(func(st *sState) sVal { return pErr{true} })
+		d.globals["candoAsm"] = cellOf(func(st *sState) sVal { return pCond{raw: "candoAsm"} }) // CPU feature probe: either value
+	}
+	if strings.HasSuffix(fn.Pkg.Pkg.Path(), "/sm3") {
+		skipInit = true // the initialiser only fills the round-constant table, which the summarised compression function uses
 	}
 	if strings.HasSuffix(fn.Pkg.Pkg.Path(), "/sm2/internal") {
 		// the initialiser of sm2/internal builds the curve and the tables; the two element constants the decoders use are
@@ -261,4 +266,96 @@ func debugGlue(args []string) {
 			fmt.Printf(" #%d ret=[%s]\n     facts: %s\n     effects: %s\n", i, strings.Join(o.terms, " | "), strings.Join(fs, " ; "), strings.Join(es, ","))
 		}
 	}
+}
+
+var protoStreamMode bool
+
+// protoRunStream: the stream domain (glue domain with mutable fields, struct copies and loop acceleration)
+func protoRunStream(p *Prog, fn *ssa.Function, pre []pFact) (*sched, []protoOutcome) {
+	protoStreamMode = true
+	defer func() { protoStreamMode = false }()
+	return protoRunFull(p, fn, false, map[string]*xContract{}, pre)
+}
+
+func debugStream(args []string) {
+	repo := "/repo"
+	if v := osGetenv("SMGO_REPO"); v != "" {
+		repo = v
+	}
+	p, err := LoadRepo(repo, "amd64")
+	if err != nil {
+		fmt.Println(err)
+		return
+	}
+	for _, name := range args {
+		fn := p.Func(name)
+		if fn == nil {
+			fmt.Println("no such function", name)
+			continue
+		}
+		e, outs := protoRunStream(p, fn, sm3Invariant("sm3"))
+		fmt.Printf("== %s: %d outcomes, %d steps\n", name, len(outs), e.steps)
+		for _, x := range e.errs {
+			fmt.Println("   ERR", x)
+		}
+		for _, x := range e.panics {
+			fmt.Println("   PANIC", x)
+		}
+		for rule, bad := range e.proto.gBad {
+			for _, b := range bad {
+				fmt.Println("   OBLIGATION", rule, b)
+			}
+		}
+		fmt.Println("   obligations proved:", e.proto.gOK)
+		for i, o := range outs {
+			var fs []string
+			for _, f := range o.st.pfacts {
+				fs = append(fs, f.String())
+			}
+			var es []string
+			for _, ef := range o.st.geff {
+				es = append(es, e.proto.effString(o.st, ef))
+			}
+			var fl []string
+			for k, v := range o.st.gfields {
+				fl = append(fl, k+"="+e.proto.show(o.st, v))
+			}
+			sort.Strings(fl)
+			fmt.Printf(" #%d ret=[%s]\n     facts: %s\n     fields: %s\n     effects: %s\n", i, strings.Join(o.terms, " | "), strings.Join(fs, " ; "), strings.Join(fl, " ; "), strings.Join(es, " , "))
+		}
+	}
+}
+
+func (d *protoDom) effString(st *sState, ef gEffect) string {
+	nm := func(id int) string {
+		if h := d.gobj(st, id); h != nil {
+			return h.name
+		}
+		return fmt.Sprint(id)
+	}
+	switch ef.kind {
+	case "rep":
+		var b []string
+		for i, x := range ef.rep.body {
+			b = append(b, fmt.Sprintf("%s +%d/+%d", d.effString(st, x), ef.rep.dOff[i], ef.rep.dSrc[i]))
+		}
+		return fmt.Sprintf("rep %s x {%s}", ef.rep.k, strings.Join(b, ", "))
+	case "copy":
+		return fmt.Sprintf("copy %s+%s <- %s+%s (%s)", nm(ef.obj), ef.off, nm(ef.srcObj), ef.srcOff, ef.n)
+	case "cf":
+		return fmt.Sprintf("cf[%s] %s+%s", ef.what, nm(ef.obj), ef.off)
+	case "put", "write":
+		v := "?"
+		if ef.val != nil {
+			v = ef.val.String()
+		}
+		return fmt.Sprintf("%s %s+%s (%s) = %s", ef.kind, nm(ef.obj), ef.off, ef.n, v)
+	}
+	return ef.kind + ":" + ef.what
+}
+
+// sm3Invariant: the representation invariant of an SM3 value named recv: 0 <= nx <= 63
+func sm3Invariant(recv string) []pFact {
+	nx := pParam(recv + ".nx")
+	return []pFact{{a: nx, op: token.GEQ, b: pC(0)}, {a: nx, op: token.LEQ, b: pC(63)}, {a: pParam(recv + ".len"), op: token.GEQ, b: pC(0)}}
 }
